@@ -95,6 +95,28 @@ theorem Frame.setLocal (σ : MState) (n : String) (v : Val) :
   have : k ≠ n := by intro h; subst h; simp at hk
   exact lookupS_setLocal_ne this v σ.locals
 
+/-- the specification-level `hex_set_usr_field` changes the abstract cell of its field and nothing else -/
+theorem setUsrFieldIL_frame {σ σ' : MState} {args : List ILPure} {vs : List Val}
+    (h : setUsrFieldIL σ args vs = .ok σ') : Frame (usrWrites args) σ σ' := by
+  unfold setUsrFieldIL at h
+  unfold usrWrites
+  split at h
+  · rename_i n _ _ _ v hargs
+    rw [hargs]
+    unfold writeUsr at h
+    split at h
+    · split at h
+      · injection h with h; subst h
+        refine ⟨fun _ _ => rfl, ?_, fun _ => ⟨rfl, rfl⟩, rfl, rfl, rfl, rfl⟩
+        intro k hk
+        have : (k == usrCell n) = false := by
+          simp only [List.mem_singleton, Res.reg.injEq] at hk
+          simpa using hk
+        simp [this]
+      · simp at h
+    · simp at h
+  · simp at h
+
 /-! ## the frame lemma -/
 
 theorem execIL_frame_aux (ms : MacroSem) (subs : SubEnv) (f : Nat) :
@@ -180,7 +202,12 @@ theorem execIL_frame_aux (ms : MacroSem) (subs : SubEnv) (f : Nat) :
         by_cases hs : fn.startsWith "hex_" = true
         · rw [if_pos hs] at h ⊢
           cases hl : lookupS (fn.drop 4).toString subs with
-          | none => rw [hl] at h; simp at h
+          | none =>
+            rw [hl] at h
+            simp only at h ⊢
+            split at h
+            · next hf => rw [if_pos hf]; exact setUsrFieldIL_frame h
+            · simp at h
           | some pb =>
             obtain ⟨ps, body⟩ := pb
             rw [hl] at h
